@@ -24,6 +24,63 @@ var solvers = []solverDef{
 	{"z3-4.8.12", func(t int) []string { return []string{"z3", "-smt2", "-in", fmt.Sprintf("-T:%d", t)} }},
 }
 
+func symbolsOf(line string, out []string) []string {
+	out = out[:0]
+	i := 0
+	n := len(line)
+	for i < n {
+		c := line[i]
+		if (c >= 'a' && c <= 'z') || (c >= 'A' && c <= 'Z') || c == '_' || c == '$' {
+			j := i
+			hasBang := false
+			for j < n {
+				d := line[j]
+				if (d >= 'a' && d <= 'z') || (d >= 'A' && d <= 'Z') || (d >= '0' && d <= '9') || d == '_' || d == '$' || d == '.' || d == '!' {
+					if d == '!' {
+						hasBang = true
+					}
+					j++
+					continue
+				}
+				break
+			}
+			if hasBang {
+				out = append(out, line[i:j])
+			}
+			i = j
+			continue
+		}
+		i++
+	}
+	return out
+}
+
+type qline struct {
+	text  string
+	def   string // symbol defined (declare-const / define-fun), "" for asserts
+	syms  []string
+	isDef bool
+}
+
+func parseQLine(l string) qline {
+	q := qline{text: l}
+	var buf []string
+	syms := symbolsOf(l, buf)
+	if strings.HasPrefix(l, "(declare-const ") || strings.HasPrefix(l, "(define-fun ") {
+		if len(syms) > 0 {
+			q.def = syms[0]
+			q.syms = append([]string{}, syms[1:]...)
+			q.isDef = true
+			return q
+		}
+	}
+	q.syms = append([]string{}, syms...)
+	return q
+}
+
+// Query builds the SMT-LIB text of the obligation. Only definitions and
+// assumptions connected (through shared symbols) to the goal are included;
+// dropping assumptions can only lose proofs, never create them.
 func (o *Obligation) Query(withModel bool) string {
 	ex := o.ex
 	var b strings.Builder
@@ -31,16 +88,73 @@ func (o *Obligation) Query(withModel bool) string {
 		b.WriteString("(set-option :produce-models true)\n")
 	}
 	b.WriteString("(set-logic ALL)\n")
-	for _, d := range ex.decls {
-		b.WriteString(d)
-		b.WriteByte('\n')
-	}
-	for _, s := range ex.script[:o.ScriptLen] {
-		b.WriteString(s)
-		b.WriteByte('\n')
-	}
 	goal := Implies(o.PC, o.Goal)
-	b.WriteString("(assert (not " + goal.S + "))\n")
+	goalLine := "(assert (not " + goal.S + "))"
+	ex.qmu.Lock()
+	if ex.qdecl == nil && ex.qscript == nil {
+		for _, d := range ex.decls {
+			ex.qdecl = append(ex.qdecl, parseQLine(d))
+		}
+		for _, d := range ex.script {
+			ex.qscript = append(ex.qscript, parseQLine(d))
+		}
+	}
+	ex.qmu.Unlock()
+	lines := make([]qline, 0, len(ex.qdecl)+o.ScriptLen)
+	lines = append(lines, ex.qdecl...)
+	lines = append(lines, ex.qscript[:o.ScriptLen]...)
+	defOf := map[string]int{}
+	usedBy := map[string][]int{}
+	for i, q := range lines {
+		if q.isDef {
+			defOf[q.def] = i
+		} else {
+			for _, s := range q.syms {
+				usedBy[s] = append(usedBy[s], i)
+			}
+		}
+	}
+	include := make([]bool, len(lines))
+	needed := map[string]bool{}
+	var work []string
+	add := func(s string) {
+		if !needed[s] {
+			needed[s] = true
+			work = append(work, s)
+		}
+	}
+	var buf []string
+	for _, s := range symbolsOf(goalLine, buf) {
+		add(s)
+	}
+	for len(work) > 0 {
+		s := work[len(work)-1]
+		work = work[:len(work)-1]
+		if i, ok := defOf[s]; ok && !include[i] {
+			include[i] = true
+			for _, t := range lines[i].syms {
+				add(t)
+			}
+		}
+		if strings.HasPrefix(s, "pc!") {
+			continue // path-condition names do not connect assumptions
+		}
+		for _, i := range usedBy[s] {
+			if !include[i] {
+				include[i] = true
+				for _, t := range lines[i].syms {
+					add(t)
+				}
+			}
+		}
+	}
+	for i, q := range lines {
+		if include[i] {
+			b.WriteString(q.text)
+			b.WriteByte('\n')
+		}
+	}
+	b.WriteString(goalLine + "\n")
 	b.WriteString("(check-sat)\n")
 	if withModel {
 		b.WriteString("(get-model)\n")
